@@ -1442,11 +1442,21 @@ func parseDescriptors(i *astikit.BytesIterator) (o []*Descriptor, err error) {
 	return
 }
 
+// clampDescriptorLength converts the size of a descriptor body, or of a part of it, to the 8 bits of its length field. A size
+// that doesn't fit must not wrap around to a small one (0 stands for "no body"): whatever holds such a descriptor is
+// too big for a packet anyway
+func clampDescriptorLength(size int) uint8 {
+	if size > 0xff {
+		return 0xff
+	}
+	return uint8(size)
+}
+
 func calcDescriptorUserDefinedLength(d []byte) uint8 {
 	if d == nil {
 		return 0
 	}
-	return uint8(len(d))
+	return clampDescriptorLength(len(d))
 }
 
 func writeDescriptorUserDefined(w *astikit.BitsWriter, d []byte) error {
@@ -1478,7 +1488,7 @@ func calcDescriptorAC3Length(d *DescriptorAC3) uint8 {
 
 	ret += len(d.AdditionalInfo)
 
-	return uint8(ret)
+	return clampDescriptorLength(ret)
 }
 
 func writeDescriptorAC3(w *astikit.BitsWriter, d *DescriptorAC3) error {
@@ -1537,7 +1547,7 @@ func calcDescriptorComponentLength(d *DescriptorComponent) uint8 {
 	if d == nil {
 		return 0
 	}
-	return uint8(6 + len(d.Text))
+	return clampDescriptorLength(6 + len(d.Text))
 }
 
 func writeDescriptorComponent(w *astikit.BitsWriter, d *DescriptorComponent) error {
@@ -1560,7 +1570,7 @@ func calcDescriptorContentLength(d *DescriptorContent) uint8 {
 	if d == nil {
 		return 0
 	}
-	return uint8(2 * len(d.Items))
+	return clampDescriptorLength(2 * len(d.Items))
 }
 
 func writeDescriptorContent(w *astikit.BitsWriter, d *DescriptorContent) error {
@@ -1620,7 +1630,7 @@ func calcDescriptorEnhancedAC3Length(d *DescriptorEnhancedAC3) uint8 {
 
 	ret += len(d.AdditionalInfo)
 
-	return uint8(ret)
+	return clampDescriptorLength(ret)
 }
 
 func writeDescriptorEnhancedAC3(w *astikit.BitsWriter, d *DescriptorEnhancedAC3) error {
@@ -1681,7 +1691,7 @@ func calcDescriptorExtendedEventLength(d *DescriptorExtendedEvent) (descriptorLe
 	ret += 1 // text length
 	ret += len(d.Text)
 
-	return uint8(ret), uint8(itemsRet)
+	return clampDescriptorLength(ret), clampDescriptorLength(itemsRet)
 }
 
 func writeDescriptorExtendedEvent(w *astikit.BitsWriter, d *DescriptorExtendedEvent) error {
@@ -1737,7 +1747,7 @@ func calcDescriptorExtensionLength(d *DescriptorExtension) uint8 {
 		}
 	}
 
-	return uint8(ret)
+	return clampDescriptorLength(ret)
 }
 
 func writeDescriptorExtensionSupplementaryAudio(w *astikit.BitsWriter, d *DescriptorExtensionSupplementaryAudio) error {
@@ -1797,7 +1807,7 @@ func calcDescriptorLocalTimeOffsetLength(d *DescriptorLocalTimeOffset) uint8 {
 	if d == nil {
 		return 0
 	}
-	return uint8(13 * len(d.Items))
+	return clampDescriptorLength(13 * len(d.Items))
 }
 
 func writeDescriptorLocalTimeOffset(w *astikit.BitsWriter, d *DescriptorLocalTimeOffset) error {
@@ -1844,7 +1854,7 @@ func calcDescriptorNetworkNameLength(d *DescriptorNetworkName) uint8 {
 	if d == nil {
 		return 0
 	}
-	return uint8(len(d.Name))
+	return clampDescriptorLength(len(d.Name))
 }
 
 func writeDescriptorNetworkName(w *astikit.BitsWriter, d *DescriptorNetworkName) error {
@@ -1859,7 +1869,7 @@ func calcDescriptorParentalRatingLength(d *DescriptorParentalRating) uint8 {
 	if d == nil {
 		return 0
 	}
-	return uint8(4 * len(d.Items))
+	return clampDescriptorLength(4 * len(d.Items))
 }
 
 func writeDescriptorParentalRating(w *astikit.BitsWriter, d *DescriptorParentalRating) error {
@@ -1907,7 +1917,7 @@ func calcDescriptorRegistrationLength(d *DescriptorRegistration) uint8 {
 	if d == nil {
 		return 0
 	}
-	return uint8(4 + len(d.AdditionalIdentificationInfo))
+	return clampDescriptorLength(4 + len(d.AdditionalIdentificationInfo))
 }
 
 func writeDescriptorRegistration(w *astikit.BitsWriter, d *DescriptorRegistration) error {
@@ -1926,7 +1936,7 @@ func calcDescriptorServiceLength(d *DescriptorService) uint8 {
 	ret := 3 // type and lengths
 	ret += len(d.Name)
 	ret += len(d.Provider)
-	return uint8(ret)
+	return clampDescriptorLength(ret)
 }
 
 func writeDescriptorService(w *astikit.BitsWriter, d *DescriptorService) error {
@@ -1948,7 +1958,7 @@ func calcDescriptorShortEventLength(d *DescriptorShortEvent) uint8 {
 	ret := 3 + 1 + 1 // language code and lengths
 	ret += len(d.EventName)
 	ret += len(d.Text)
-	return uint8(ret)
+	return clampDescriptorLength(ret)
 }
 
 func writeDescriptorShortEvent(w *astikit.BitsWriter, d *DescriptorShortEvent) error {
@@ -1984,7 +1994,7 @@ func calcDescriptorSubtitlingLength(d *DescriptorSubtitling) uint8 {
 	if d == nil {
 		return 0
 	}
-	return uint8(8 * len(d.Items))
+	return clampDescriptorLength(8 * len(d.Items))
 }
 
 func writeDescriptorSubtitling(w *astikit.BitsWriter, d *DescriptorSubtitling) error {
@@ -2004,7 +2014,7 @@ func calcDescriptorTeletextLength(d *DescriptorTeletext) uint8 {
 	if d == nil {
 		return 0
 	}
-	return uint8(5 * len(d.Items))
+	return clampDescriptorLength(5 * len(d.Items))
 }
 
 func writeDescriptorTeletext(w *astikit.BitsWriter, d *DescriptorTeletext) error {
@@ -2039,7 +2049,7 @@ func calcDescriptorVBIDataLength(d *DescriptorVBIData) uint8 {
 			ret++ // one reserved byte, see writeDescriptorVBIData
 		}
 	}
-	return uint8(ret)
+	return clampDescriptorLength(ret)
 }
 
 func writeDescriptorVBIData(w *astikit.BitsWriter, d *DescriptorVBIData) error {
@@ -2075,7 +2085,7 @@ func calcDescriptorUnknownLength(d *DescriptorUnknown) uint8 {
 	if d == nil {
 		return 0
 	}
-	return uint8(len(d.Content))
+	return clampDescriptorLength(len(d.Content))
 }
 
 func writeDescriptorUnknown(w *astikit.BitsWriter, d *DescriptorUnknown) error {
